@@ -250,7 +250,7 @@ def check_doc(ctx, rng, doc, sname):
 
 def shard(ctx):
     rng = ctx.rng("c10")
-    n = 30 if ctx.quick else 900
+    n = 30 if ctx.quick else 3000
     for t in range(n):
         doc = gen.gen_doc(rng, scalars=SCALARS, depth=5)
         if not all("/" not in k for p, v in gen.walk(doc) if isinstance(v, dict) for k in v):
